@@ -127,7 +127,7 @@ fn make_event(m: &sim::Model, inv: &crate::maps::Inv, rng: &mut Rng, kind: u64, 
 }
 
 fn run(ctx: &mut Ctx) {
-    let m = sim::Model::load(REPO);
+    let m = sim::Model::load(&repo_root());
     let inv = crate::maps::inverse(u32::MAX);
     let n_events = ctx.tier.pick(30, 120);
     let shard = ctx.shard as u64;
